@@ -27,7 +27,7 @@ type logLine struct {
 	Noise bool     `json:"noise"`
 }
 
-func renderLogLine(ln logLine, pos int) string {
+func renderLogLine(ln logLine, pos int, variant int) string {
 	prof := strings.Join(ln.Prof, "")
 	twin := strings.HasSuffix(ln.Cid, "t")
 	ln.Cid = strings.TrimSuffix(ln.Cid, "t")
@@ -45,8 +45,19 @@ func renderLogLine(ln logLine, pos int) string {
 		}
 		return head + fmt.Sprintf(`apparmor="%s" operation="open" class="file" profile="%s" name="%s" pid=%d comm="%s" requested_mask="r" denied_mask="r" %s`, ln.Cls, prof, name, 2000+pos, marker, ids)
 	case "long":
-		name := "/vm/" + ln.Cid + "/" + strings.Repeat("verylongcomponent/", 4000)
-		return head + fmt.Sprintf(`apparmor="DENIED" operation="open" class="file" profile="%s" name="%s" pid=%d comm="%s" requested_mask="r" denied_mask="r" fsuid=1000 ouid=1000`, prof, name, 2000+pos, marker)
+		// longer than any buffer (72 KiB), or exactly a multiple of the usual buffer sizes
+		mk := func(pad int) string {
+			name := "/vm/" + ln.Cid + "/" + strings.Repeat("verylongcomponent/", pad/18) + strings.Repeat("x", pad%18)
+			return head + fmt.Sprintf(`apparmor="DENIED" operation="open" class="file" profile="%s" name="%s" pid=%d comm="%s" requested_mask="r" denied_mask="r" fsuid=1000 ouid=1000`, prof, name, 2000+pos, marker)
+		}
+		targets := []int{0, 4096, 8192, 65536, 4095, 4097, 8191, 65535}
+		if t := targets[variant%len(targets)]; t > 0 { // the same in every line of one log (duplicates must stay duplicates)
+			base := len(mk(0))
+			if t > base {
+				return mk(t - base)
+			}
+		}
+		return mk(72000)
 	case "trunc": // an event cut off inside a quoted value (odd number of quotes)
 		return head + fmt.Sprintf(`apparmor="DENIED" operation="open" class="file" profile="%s" comm="%s" pid=%d requested_mask="r" fsuid=1000 ouid=1000 name="/vm/%s/trunca`, prof, marker, 2000+pos, ln.Cid)
 	case "STATUS":
@@ -177,7 +188,7 @@ func checkC14(e *Env, r *Report) {
 		j := jobs[i]
 		var b strings.Builder
 		for k, ln := range j.log {
-			line := renderLogLine(ln, k+1)
+			line := renderLogLine(ln, k+1, i)
 			if j.fmtJ {
 				if ln.Cls == "garbled" || ln.Cls == "blank" {
 					b.WriteString(line + "\n") // a line journalctl did not produce
